@@ -113,6 +113,10 @@ impl MultiPeerBackend for SubSocketBackend {
             let _ = monitor.try_send(SocketEvent::Disconnected(peer_id.clone()));
         }
         self.peers.remove_sync(peer_id);
+        // Also drop the queued read half, otherwise recv keeps polling the dead connection.
+        if let Some(inner) = &self.fair_queue_inner {
+            inner.lock().remove(peer_id);
+        }
     }
 }
 
